@@ -455,9 +455,13 @@ def run(case):
 def main():
     cases = json.load(sys.stdin)
     res = []
+    import time
     for c in cases:
+        t0 = time.time()
         try:
             res.append(run(c))
+            if isinstance(res[-1], dict):
+                res[-1]['secs'] = round(time.time() - t0, 2)
         except Exception as e:
             import traceback
             res.append({'error': 'worker: ' + type(e).__name__ + ': ' + str(e)[:200] + traceback.format_exc()[-300:]})
